@@ -93,7 +93,24 @@ def _block(gen, ep_stub, kind=None):
         pairs.append((b'content-length', rng.choice([b'0', b'5', b'abc', b'-1', b'99999999999999999999'])))
     enc = RefEncoder()
     # stateless: never use incremental indexing (rng=None => literal without indexing / static index)
-    return enc.encode(pairs), kind
+    out = enc.encode(pairs)
+    vt = gen.w.eps[gen.w.peer(ep_stub)].trk
+    if getattr(vt, 'table_size_changed', False) and rng.random() < 0.8:
+        # the victim has had a new HEADER_TABLE_SIZE acknowledged: a well-behaved encoder starts its next block with
+        # a dynamic table size update (RFC 7541 6.3), here to the acknowledged maximum (capped at the default 4096)
+        n = min(vt.mine.get(C.S_HEADER_TABLE_SIZE, 4096), 4096)
+        if n < 31:
+            upd = bytes([0x20 | n])
+        else:
+            upd = bytearray([0x20 | 31])
+            n -= 31
+            while n >= 128:
+                upd.append((n % 128) | 0x80)
+                n //= 128
+            upd.append(n)
+            upd = bytes(upd)
+        out = upd + out
+    return out, kind
 
 
 def draw(gen):
@@ -151,6 +168,32 @@ def draw(gen):
                 piece = (piece or b'') + rest
             fr.append(C.mk_continuation(sid, piece, last and rng.random() < 0.8))
         raw = b''.join(f.serialize() for f in fr)
+        return {'ev': 'inject', 'dir': d, 'pos': pos, 'bytes': raw}
+    hot = [h for h in getattr(gen, 'hot_ids', {}).get(victim, []) if vt.get(h) is None]
+    if 0.7 <= r_special < 0.7 + gen.P.get('adv_hot', 0.12) and not vt.closed and hot:
+        # an id the victim's application named in a refused call and that (rightly) does not exist: well-formed frames
+        # of every stream-opening and stream-using kind on it - they must meet the same fate as on any unused id
+        sid = rng.choice(hot)
+        k = rng.randrange(7)
+        if k <= 1:
+            frag, _ = _block(gen, stub, 'request')
+            fr = [C.mk_headers(sid, frag, rng.random() < 0.5, True)]
+        elif k == 2:
+            frag, _ = _block(gen, stub, 'response')
+            fr = [C.mk_headers(sid, frag, rng.random() < 0.5, True)]
+        elif k == 3:
+            frag, _ = _block(gen, stub, 'request')
+            even = max([x.sid for x in vt.streams.values() if x.sid % 2 == 0] + [0]) + 2
+            fr = [C.mk_push_promise(sid, even, frag, True, None)]
+        elif k == 4:
+            fr = [C.mk_data(sid, b'hot', rng.random() < 0.5, None)]
+        elif k == 5:
+            fr = [C.mk_window_update(sid, 100)]
+        else:
+            fr = [C.mk_rst(sid, 8)]
+        raw = b''.join(f.serialize() for f in fr)
+        if spans:
+            pos = spans[0][0]
         return {'ev': 'inject', 'dir': d, 'pos': pos, 'bytes': raw}
     if 0.6 <= r_special < 0.6 + gen.P.get('adv_ack_big', 0.02) and not vt.closed and vt.sent_settings:
         # the acknowledgement of a SETTINGS frame that lowers MAX_FRAME_SIZE, and right behind it a frame that only
